@@ -259,6 +259,10 @@ func init() {
 			}
 			stats := map[string]mc.SeqStats{}
 			total := mc.SeqStats{}
+			mc.SeqFullDepth = 1
+			if c.Tier == "thorough" {
+				mc.SeqFullDepth = 2
+			}
 			for _, i := range cfgs {
 				cfg := cmpConfigs[i]
 				d := cmpDepth(cfg, c.Tier) - 1
